@@ -281,7 +281,12 @@ class UTPM(Ring, RawAlgorithmsMixIn):
         ybar, dummy, xbar = out
         # print 'xbar =', xbar
         # print 'ybar =', ybar
-        xbar += ybar[sl]
+        if isinstance(xbar, UTPM) and xbar.shape != ybar[sl].shape:
+            # x has been broadcasted into y[sl]: sum the adjoint over the broadcasted axes
+            xbar2, tmp = cls.broadcast(xbar, ybar[sl])
+            workaround_strides_function(xbar2, tmp, operator.iadd)
+        else:
+            xbar += ybar[sl]
         ybar[sl].data[...] = 0.
         # print 'funcargs=',funcargs
         # print y[funcargs[0]]
